@@ -10,12 +10,14 @@ import kanilib  # noqa: E402
 
 NAME = "U8"
 SRC = "passage-protocol/src/rate_limiter.rs"
-HARNESSES = ["step_exact", "idle_readmitted", "fresh_key", "other_keys_and_cleanup", "step_exact_big_limit"]
+HARNESSES = ["step_exact", "idle_readmitted", "fresh_key", "other_keys_and_cleanup", "other_keys_fresh_visitor", "step_exact_big_limit"]
 KNOWN_BAD = []
 
 
 def build_kani():
-    ex = vxlib.run_vx([
+    # module-level constants of the file come along (a cap or threshold a change introduces is then part of the analysed text)
+    consts = [it for it in vxlib.vx_list(SRC) if it["kind"] in ("const", "static") and not it["modpath"]]
+    ex = vxlib.run_vx([{"key": f"rate_limiter.const.{c['name']}", "file": SRC, "kind": c["kind"], "name": c["name"], "rules": ["attrs"]} for c in consts] + [
         {"key": "rate_limiter.RateLimiter", "file": SRC, "kind": "struct", "name": "RateLimiter", "rules": ["attrs"]},
         {"key": "rate_limiter.new", "file": SRC, "kind": "impl_fn", "self_ty": "RateLimiter<T>", "name": "new", "rules": ["attrs"]},
         {"key": "rate_limiter.enqueue", "file": SRC, "kind": "impl_fn", "self_ty": "RateLimiter<T>", "name": "enqueue", "rules": ["attrs"]},
@@ -26,6 +28,8 @@ def build_kani():
     with open(os.path.join(HERE, "env.rs")) as f:
         text = "// generated on every run from /repo by vx; do not edit\n" + f.read()
     text += "\n// ---- extracted verbatim (only #[instrument] dropped) ----\n"
+    for c in consts:
+        text += ex.pop(f"rate_limiter.const.{c['name']}")["text"] + "\n"
     text += ex["rate_limiter.RateLimiter"]["text"]
     it = ex.pop("rate_limiter.impl")
     text += f"// src={it['file']}:{it['line_start']}-{it['line_end']}\n" + it["text"] + "\n"
